@@ -43,7 +43,7 @@ def party(el, ident=None, ref=None, rnd=None):
 
 def build(plan, fault, rnd):
     items = plan
-    ids = {i + 1: f"id{i + 1}" for i, it in enumerate(items) if it["kind"] == "def"}
+    ids = {i + 1: f"id{i + 1}" for i, it in enumerate(items) if it["kind"] in ("def", "def0")}
     if fault[0] == "duplicate-id":
         ids[fault[2]] = ids[fault[1]]
     d = Node("dataset")
@@ -51,7 +51,11 @@ def build(plan, fault, rnd):
     groups = {e: [] for e in ORDER}
     for i, it in enumerate(items):
         k = i + 1
-        if it["kind"] == "def":
+        if it["kind"] == "def0":
+            pn = Node(it["el"])                      # a definition that carries the id but has no children at all
+            pn.add_attribute("id", ids[k])
+            groups[it["el"]].append(pn)
+        elif it["kind"] == "def":
             pn = party(it["el"], ident=ids[k], rnd=rnd)
             if fault[0] == "duplicate-id-nested" and fault[1] == k:
                 ad = Node("address")
@@ -172,11 +176,11 @@ def run(rep, tier, seed):
         if p.get("k") == "EP":
             for f in p["faults"]:
                 cases.append((p["items"], f))
-    if tier == "quick" and len(cases) > 1500:
+    if tier == "quick" and len(cases) > 2500:
         rnd = random.Random(seed)
         nofault = [c for c in cases if c[1][0] == "none"]
         faulty = [c for c in cases if c[1][0] != "none"]
-        cases = nofault + rnd.sample(faulty, 1500 - min(1500, len(nofault)) if len(nofault) < 1500 else 300)
+        cases = (nofault if len(nofault) <= 2000 else rnd.sample(nofault, 2000)) + rnd.sample(faulty, 500)
     G["cases"] = cases
     evs = [e for chunk in parallel(w_plans, range(len(cases))) for e in chunk]
     nfx = 16 if tier == "quick" else 300
